@@ -1,5 +1,6 @@
 import DaeVerif.C07.Model
 import DaeVerif.C07.ComposeModel
+import DaeVerif.C07.Resolver
 import DaeVerif.Common.Proto
 /-!
 Line-protocol driver for C07.  Grammar (see harness/overlay/component/dns/c07_test.go and
@@ -12,11 +13,20 @@ rq   n:<name> <qtype> rx:<ids>     RequestMatcher.Match      → hit:<byte> | no
 rs   n:<name> <qtype> <from> ips:<addrs> rx:<ids>            → hit:<byte> | nohit | emptyname
 cfg  <nUp> <reqfb> <reqrules> <respfb> <resprules> [urls:…]  → ok | builderr
 dq   n:<host> <4|6|46> rx:<ids>    daedns.Router.LookupIPAddr → per asked type: <qtype>=u<k> | <qtype>=pass
+recfg <nUp> <reqfb> <reqrules> <respfb> <resprules>          → ok | builderr   (reload: new rules, cache kept)
 depth <N>                          MaxDnsLookupDepth of the code under test → ok
 ask  <dst> <isResp> <q|q2|noq> n:<name> <qtype> rx:<ids> ip:<0|1> cl:<class> seed:<entries> ans:<table>
                                                              → trace=… reply=… | cache=… err=…
    (the part after " | " is diagnostic: the check compares it but does not call a difference a violation;
     the response cache is threaded through the asks of one `cfg` scenario)
+ga   <t> n:<name> <qtype> rx:<ids> <answer>   caller <t> starts a question: RequestSelect → GetUpstream → (answer of
+                                   that upstream) ResponseSelect → GetUpstream of the re-ask upstream; runs until the
+                                   caller is inside a blocking operation or has finished
+                                   → park:build | park:cb | done req=… from=… resp=… from1=…
+                                     followed by ` ;; spec req=… resp=…`: what the question must end with under
+                                     EVERY schedule (route; decision for an answer of the routed upstream)
+gr   <t> <ok|fail>                 the blocking operation caller <t> is in ends with that outcome → same answers
+   (resolver state lives from one `cfg` line to the next; `lean/DaeVerif/C07/Resolver.lean`)
 rules := '-' | rule (';' rule)*      rule := func ('&' func)* '>' out
 func  := ['!'] fname '(' key '=' val (',' key '=' val)* ')'
 ```
@@ -148,6 +158,8 @@ structure St where
   optimistic : Bool := false
   dead : List Nat := []
   explain : Bool := false   -- coverage mode: print a classification of the op instead of the answer
+  world : Res.World := Res.World.init         -- upstream resolvers, upstream2Index and the questions of the running scenario
+  callers : List Nat := []                    -- caller ids seen (presentation only)
   reqBuilt : Option C11.Built := none    -- the REAL domain matcher (C11 model) built from the request program's AddSet calls
   respBuilt : Option C11.Built := none
 
@@ -286,6 +298,36 @@ def firstIdx (env : Env) (rs : List SrcRule) : String :=
 def reqSelStr : ReqSel → String
   | .reject => "reject" | .to .asis => "asis" | .to (.up _) => "upstream" | .err _ => "err"
 
+def respSelStr : RespSel → String
+  | .accept => "accept" | .reject => "reject" | .next k => s!"next:u{k}" | .err e => "err:" ++ errStr e
+
+def reqSelFull : ReqSel → String
+  | .reject => "reject" | .to .asis => "asis" | .to (.up k) => s!"u{k}" | .err e => "err:" ++ errStr e
+
+def fromStr : Option UpRef → String
+  | none => "-" | some .asis => "asis" | some (.up k) => s!"u{k}"
+
+/-- where caller `t` is after a move -/
+def askStateStr (s : Res.Sys) (t : Nat) (a : Res.AskT) : String :=
+  match a.stage with
+  | .fin r => s!"done req={reqSelFull r.req} from={fromStr r.from0} resp={(r.resp.map respSelStr).getD "-"} from1={fromStr r.from1}"
+  | _ =>
+    match s.pc t with
+    | .build => "park:build"
+    | .callback _ => "park:cb"
+    | _ => "stuck"
+
+/-- coverage only: what the other callers of resolver `k` are doing -/
+def othersAt (st : Res.Sys) (callers : List Nat) (t k : Nat) (p : Res.PC → Bool) : String :=
+  if callers.any (fun c => c != t && st.tgt c == k && p (st.pc c)) then "1+" else "0"
+
+def isCb : Res.PC → Bool | .callback _ => true | _ => false
+def isBuild : Res.PC → Bool | .build => true | _ => false
+
+def pubStr : Res.Pub → String | .unset => "unset" | .failed => "failed" | .ok _ => "ok"
+
+def stateKind (s : String) : String := String.ofList (s.toList.takeWhile (· != ' '))
+
 def handleLine (st : St) (line : String) : St × String :=
   match words line with
   | ["explain"] => ({ st with explain := true }, "explain")
@@ -362,8 +404,18 @@ def handleLine (st : St) (line : String) : St × String :=
       let Q := compile srs sfb
       let dead := ((words line).filterMap fun t => parseList "dead:" t).flatten.filterMap fun d => (dropS d 1).toNat?
       ({ st with reqSrc := rrs, reqFb := rfb, reqProg := P, respSrc := srs, respFb := sfb, respProg := Q, nUp := n,
+                 world := Res.World.init, callers := [],
                  cache := [], stale := [], optimistic := (words line).contains "opt:1", dead := dead },
         if P.isSome && Q.isSome then "ok" else "builderr")
+    | _, _, _, _, _ => (st, "bad-op")
+  | "recfg" :: n :: rfb :: rrules :: sfb :: srules :: _ =>
+    -- a reload: the controller adopts new rule lists (same upstreams); response cache and stale set live on
+    match n.toNat?, parseOut .req rfb, parseRules .req rrules, parseOut .resp sfb, parseRules .resp srules with
+    | some n, some rfb, some rrs, some sfb, some srs =>
+      match compileRequest rrs rfb, compile srs sfb with
+      | some P, some Q =>
+        ({ st with reqSrc := rrs, reqFb := rfb, reqProg := some P, respSrc := srs, respFb := sfb, respProg := some Q, nUp := n }, "ok")
+      | _, _ => (st, "builderr")   -- the new generation is refused: the old rules stay
     | _, _, _, _, _ => (st, "bad-op")
   | ["ask", dst, isResp, hasQ, name, qt, rx, ipTok, clTok, seed, ans] =>
     match dst.toNat?, parseName name, qt.toNat?, parseList "rx:" rx, parseList "seed:" seed,
@@ -401,6 +453,42 @@ def handleLine (st : St) (line : String) : St × String :=
         (st, s!"trace={",".intercalate (o.trace.map (upStr dst))} reply={replyStr o.reply} | cache={";".intercalate keys} err={errc}")
       | _, _ => (st, "bad-op")
     | _, _, _, _, _, _, _, _, _ => (st, "bad-op")
+  | ["ga", t, name, qt, rx, ansTok] =>
+    match t.toNat?, parseName name, qt.toNat?, parseList "rx:" rx, st.reqProg, st.respProg with
+    | some t, some nm, some qt, some rx, some P, some Q =>
+      let q : Question := { name := nm, qtype := qt, rx := rx }
+      match parseAns (some q) ("0.a=" ++ ansTok) with
+      | some (_, some r) =>
+        let cfg : Cfg := { nUp := st.nUp, req := P, resp := Q, maxDepth := st.maxDepth }
+        let w := st.world.move cfg (.start t q r)
+        let now := match w.asks t with | some a => askStateStr w.s t a | none => "stuck"
+        let rq := requestSelect (Res.live cfg) q
+        let cls := match rq with
+          | .to (.up k) => s!"ga route:upstream earlier-caller-in-ready-callback:{othersAt st.world.s st.callers t k isCb} earlier-caller-in-bootstrap:{othersAt st.world.s st.callers t k isBuild} published:{pubStr (st.world.s.pub k)}"
+          | r => s!"ga route:{reqSelStr r}"
+        ({ st with world := w, callers := t :: st.callers },
+          if st.explain then s!"{cls} then:{stateKind now}"
+          else
+            -- the schedule-independent part: the route, and the decision for an answer of THAT upstream
+            let dec := match rq with
+              | .to u => respSelStr (responseSelect (Res.live cfg) r u)
+              | _ => "-"
+            s!"{now} ;; spec req={reqSelFull rq} resp={dec}")
+      | _ => (st, "bad-op")
+    | _, _, _, _, _, _ => (st, "bad-op")
+  | ["gr", t, oc] =>
+    match t.toNat?, st.reqProg, st.respProg with
+    | some t, some P, some Q =>
+      match st.world.asks t with
+      | some _ =>
+        let cfg : Cfg := { nUp := st.nUp, req := P, resp := Q, maxDepth := st.maxDepth }
+        let w := st.world.move cfg (.release t (oc == "ok"))
+        let now := match w.asks t with | some a => askStateStr w.s t a | none => "stuck"
+        let k := st.world.s.tgt t
+        let cls := s!"gr at:{if isCb (st.world.s.pc t) then "ready-callback" else "bootstrap"} outcome:{oc} other-callers-in-ready-callback:{othersAt st.world.s st.callers t k isCb} published-meanwhile:{pubStr (st.world.s.pub k)}"
+        ({ st with world := w }, if st.explain then s!"{cls} then:{stateKind now}" else now)
+      | none => (st, "bad-op")
+    | _, _, _ => (st, "bad-op")
   | ["pref", name, qt1, qt2, rx, recs1, recs2] =>
     -- ip_version_prefer: the non-preferred answer waits for the preferred one; both are relayed unchanged
     match parseName name, qt1.toNat?, qt2.toNat?, parseList "rx:" rx, parseRecs recs1, parseRecs recs2, st.reqProg, st.respProg with
